@@ -80,3 +80,22 @@ def _numrepr_after_typechange(v):
     return False
   cols = ctx.get("cols", {})
   return all(cols.get("%s.%s" % (t, c), {}).get("isFormula") for (t, c, _r, _a, _b) in cells)
+
+
+DEFAULT_TOKENS = {"s", "#0", "b0", "n", "#inf"}
+
+
+@matcher("fault_inside_modifycolumn_resets_column")
+def _fault_inside_modifycolumn(v):
+  """
+  InjectedFault inside a rebuild_usercode call of a schema doc action: the schema is restored, but a
+  column whose object had already been re-created reads as all-default afterwards.
+  """
+  ctx = v.get("context", {})
+  cells = _cells(v)
+  if not cells or not ctx.get("fault") or ctx["fault"][0] != "rebuild":
+    return False
+  cols = {(t, c) for (t, c, _r, _a, _b) in cells}
+  if len(cols) != 1:
+    return False
+  return all(b in DEFAULT_TOKENS for (_t, _c, _r, _a, b) in cells)
